@@ -14,11 +14,12 @@
     the three entry points.  [fx : fixes] says which recorded findings are repaired in the modelled tree
     (one flag per finding with a repair: F1 = fix: b2286d8, F2 = 7c3e9fc, F3 = a5ef279, F4 = ae6db4f,
     F6 = 06faa19, F7 = 19923cd; F9 = candidate fixes/C13-F9.diff).  [pinned] = none, [all_fixed] = all,
-    [repo_now] = all but F9 (/repo today).  Every theorem holds for every [fx]; the guard of a repaired
+    [repo_now] = all but F9 and F11 (/repo today).  Every theorem holds for every [fx]; the guard of a repaired
     finding is switched off, so for [repo_now] only C13-F5 (a Cookie(n) read whose OWN parts of the Cookie
     line are not plain; sanitised cookie values on hand-over), C13-F8 (Headers() read as a whole map: the
     key Host — every other key agrees, [C13_headers_agree_except_host]), C13-F9 (the body when Envoy conveys
-    it in the string field) and C13-F3b (blanks around the values of a header that is added twice) guard
+    it in the string field), C13-F11 (a request with a query string when Envoy conveys the request target
+    the documented way, query inside [path]: lookup, captures and query differ) and C13-F3b (blanks around the values of a header that is added twice) guard
     anything.  [l_pack L] says which CheckRequest field carries the body under Envoy; all statements
     hold for each conveyance.  The pinned behaviour of each repaired finding is
     kept as a [..._pinned_refuted] witness.
@@ -49,6 +50,7 @@ Proof. exact repo_guards. Qed.
 
 Lemma C13_repo_guards_fire : forall decode find L,
   guards_fire decode find repo_now L =
+  g_F11 L ||
   match find (lookup_of (build_http L)) with
   | None => false
   | Some (rl, caps) =>
@@ -60,19 +62,21 @@ Proof. exact repo_guards_fire. Qed.
 
 (** the encoded-slash check rejects at all entry points alike *)
 Theorem C13_slash_check_agrees_repo : forall find L rl caps,
-  wf_lreqb L = true -> find (lookup_of (build_http L)) = Some (rl, caps) ->
+  wf_lreqb L = true -> g_F11 L = false ->
+  find (lookup_of (build_http L)) = Some (rl, caps) ->
   g_F4_decision (r_slashes rl) L = true ->
   mech_view find true (build_http L) = inl EArgument /\
-  mech_view find (fx_F1 repo_now) (build_envoy (fx_F4 repo_now) (mk_envoy L)) = inl EArgument.
-Proof. intros find L rl caps. exact (slash_check_agrees find true L rl caps). Qed.
+  mech_view find (fx_F1 repo_now) (build_envoy (fx_F4 repo_now) (norm_envoy (fx_F11 repo_now) (mk_envoy L))) = inl EArgument.
+Proof. intros find L rl caps W G. apply (slash_check_agrees find true false L rl caps W). rewrite G. reflexivity. Qed.
 Print Assumptions C13_slash_check_agrees_repo.
 
 (** ------------------------------------------------------------------ every tree (any subset of the repairs) *)
 
 (** rule lookup reads the same path, method, scheme and host at all entry points: the same rule
     matches and the same values are captured, for every lookup function *)
-Theorem C13_same_lookup : forall fixed_F4 L,
-  wf_lreqb L = true -> lookup_of (build_http L) = lookup_of (build_envoy fixed_F4 (mk_envoy L)).
+Theorem C13_same_lookup : forall fixed_F4 fixed_F11 L,
+  wf_lreqb L = true -> fixed_F11 || negb (g_F11 L) = true ->
+  lookup_of (build_http L) = lookup_of (build_envoy fixed_F4 (norm_envoy fixed_F11 (mk_envoy L))).
 Proof. exact same_lookup. Qed.
 Print Assumptions C13_same_lookup.
 
@@ -81,11 +85,12 @@ Print Assumptions C13_same_lookup.
     on the object the context handed out), outside the guards the HTTP contexts and the Envoy context
     answer alike — captures, headers, cookies, decoded body, URL parts *)
 Theorem C13_same_view : forall decode find fx L rl caps q,
-  wf_lreqb L = true -> find (lookup_of (build_http L)) = Some (rl, caps) ->
+  wf_lreqb L = true -> fx_F11 fx || negb (g_F11 L) = true ->
+  find (lookup_of (build_http L)) = Some (rl, caps) ->
   g_F4_decision (r_slashes rl) L = false ->
   guard_query decode fx (r_slashes rl) caps L q = false ->
   exists vh ve, mech_view find true (build_http L) = inr (rl, vh) /\
-                mech_view find (fx_F1 fx) (build_envoy (fx_F4 fx) (mk_envoy L)) = inr (rl, ve) /\
+                mech_view find (fx_F1 fx) (build_envoy (fx_F4 fx) (norm_envoy (fx_F11 fx) (mk_envoy L))) = inr (rl, ve) /\
                 answer (acc_http decode L) vh q = answer (acc_envoy decode fx (mk_envoy L)) ve q.
 Proof. exact same_view. Qed.
 Print Assumptions C13_same_view.
@@ -289,6 +294,17 @@ Theorem C13_F9_refuted :
   serve_decision w_decode w7_find all_fixed w9_req = serve_envoy w_decode w7_find all_fixed w9_req.
 Proof. exact F9_refuted. Qed.
 Print Assumptions C13_F9_refuted.
+
+Theorem C13_F11_refuted :
+  wf_lreqb w11_req = true /\ g_F11 w11_req = true /\ guards_fire w_decode w11_find repo_now w11_req = true /\
+  s_handover (serve_decision w_decode w11_find repo_now w11_req) = Some {| ho_headers := [("X-User", "abc"); ("X-Q", "x=1")]%string; ho_cookies := [] |} /\
+  s_handover (serve_envoy w_decode w11_find repo_now w11_req) = Some {| ho_headers := [("X-User", "abc?x=1"); ("X-Q", "")]%string; ho_cookies := [] |} /\
+  s_err (serve_decision w_decode w11_find_literal repo_now w11_req) = None /\
+  s_err (serve_envoy w_decode w11_find_literal repo_now w11_req) = Some ENoRule /\
+  guards_fire w_decode w11_find all_fixed w11_req = false /\
+  serve_decision w_decode w11_find all_fixed w11_req = serve_envoy w_decode w11_find all_fixed w11_req.
+Proof. exact F11_refuted. Qed.
+Print Assumptions C13_F11_refuted.
 
 Theorem C13_F8_refuted :
   g_F8_query QHeaders = true /\ guards_fire w_decode w8_find repo_now w6_req = true /\
